@@ -168,18 +168,37 @@ func NewBinaryModel() *BinaryModel {
 func (m *BinaryModel) ResolveDependencies() {
 	m.Config = NewConfiguration(m.Options)
 	for _, packet := range m.Packets {
-		for _, field := range packet.Fields {
-			if of, ok := field.Attr.(*ObjectFieldAttribute); ok {
-				if of.RefPacket == nil {
-					if refPacket, exists := m.PacketsMap[of.PacketName]; exists {
-						of.RefPacket = refPacket
-					} else {
-						m.AddSyntaxError(&SyntaxError{
-							Line:   field.Line,
-							Column: field.Column,
-							Msg:    "Unknown packet type " + of.PacketName + " for field " + field.Name,
-						})
-					}
+		m.resolveFields(packet.Fields)
+	}
+}
+
+// resolveFields links object fields to their packets, also inside inline objects,
+// and checks the packets that match fields select
+func (m *BinaryModel) resolveFields(fields []*Field) {
+	for _, field := range fields {
+		switch c := field.Attr.(type) {
+		case *ObjectFieldAttribute:
+			if c.RefPacket == nil {
+				if refPacket, exists := m.PacketsMap[c.PacketName]; exists {
+					c.RefPacket = refPacket
+				} else {
+					m.AddSyntaxError(&SyntaxError{
+						Line:   field.Line,
+						Column: field.Column,
+						Msg:    "Unknown packet type " + c.PacketName + " for field " + field.Name,
+					})
+				}
+			} else if c.IsIner {
+				m.resolveFields(c.RefPacket.Fields)
+			}
+		case *MatchFieldAttribute:
+			for _, pair := range c.MatchPairs {
+				if _, exists := m.PacketsMap[pair.Value]; !exists {
+					m.AddSyntaxError(&SyntaxError{
+						Line:   pair.Line,
+						Column: pair.Column,
+						Msg:    "Unknown packet type " + pair.Value + " for field " + field.Name,
+					})
 				}
 			}
 		}
